@@ -25,6 +25,14 @@ def bodyFn (kind : String) (S : Int) (xs : List Int) : List Int :=
     ([0, 1, 2] : List Int).filterMap fun k =>
       let g := xs.filter fun x => x % 3 == k
       if g.isEmpty then none else some ((g.foldl (· + ·) 0 % 50 + S) % M)
+  | "kf2" =>
+    let ys := xs.map fun x => (x + S) % M
+    ([0, 1, 2] : List Int).filterMap fun k =>
+      let g := ys.filter fun x => x % 3 == k
+      if g.isEmpty then none else some ((g.foldl (· + ·) 0 % 50 + S) % M)
+  | "join" =>
+    let ls := xs.map fun x => (x + S) % M
+    ls.flatMap fun l => (xs.filter fun r => l % 4 == r % 4).map fun r => (l + r + S) % M
   | _ => xs
 
 def localFold (kind : String) (d x : Int) : Int :=
@@ -53,14 +61,23 @@ def loopCond (kind : String) : Option (Int → Bool × Int) :=
     it beyond the number of replicas (every replica sends one delta, the default one if it saw nothing) -/
 def split (n : Nat) (xs : List Int) : List (List Int) := xs :: List.replicate (n - 1) []
 
+def isNest (kind : String) : Bool := kind == "nested" || kind == "nestri" || kind == "nestir"
+/-- the OUTER loop feeds its output back (iterate) -/
+def outerFeed (kind : String) : Bool := kind == "iterate" || kind == "nestir"
+/-- the INNER loop feeds its output back (iterate) -/
+def innerFeed (kind : String) : Bool := kind == "nestri"
+
 def innerLoop (maxInner : Nat) (So : Int) : Loop Int Int Int :=
   { init := 1, maxIter := maxInner, body := fun Si xs => xs.map fun x => (x + So + Si) % M,
     delta0 := 0, localFold := fun d x => d + x, global := fun s d => s + d, cond := fun s => (true, s) }
 
+/-- final state of the inner loop (replay or iterate) -/
+def innerResult (kind : String) (maxInner n : Nat) (So : Int) (xs : List Int) : Int :=
+  (lastD (trace (innerLoop maxInner So) (innerFeed kind) (split n) xs) (1, [])).1
+
 def mkLoop (kind body fold : String) (cond : Int → Bool × Int) (init : Int) (mx maxInner n : Nat) : Loop Int Int Int :=
   { init, maxIter := mx,
-    body := if kind == "nested" then fun So xs => [seqReplay (innerLoop maxInner So) (split n) xs % M]
-            else bodyFn body,
+    body := if isNest kind then fun So xs => [innerResult kind maxInner n So xs % M] else bodyFn body,
     delta0 := 0, localFold := localFold fold, global := globalFold fold, cond }
 
 def ints (l : List Int) : String := toString (Val.ofInts l)
@@ -68,7 +85,7 @@ def ints (l : List Int) : String := toString (Val.ofInts l)
 def sortInts (l : List Int) : List Int := (l.toArray.qsort (· < ·)).toList
 
 /-- Does a read happen in a round with this input? (all library bodies read the state for every
-    element that reaches the reading operator; `group` reads once per non-empty key) -/
+    element that reaches the reading operator; `group`/`kf2` read once per non-empty key as well) -/
 def readsIn (inp : List Int) : Bool := !inp.isEmpty
 
 structure Ref where
@@ -76,32 +93,42 @@ structure Ref where
   items : Option (List Int)
   /-- (level, ko, ki, expected state) for every round in which a read happens -/
   obs : List (String × Nat × Nat × Int)
+  /-- nested kinds: (ko, ki, x, So, Si) per element of the inner body -/
+  rds : List (Nat × Nat × Int × Int × Int)
 
 def reference (kind : String) (l : Loop Int Int Int) (maxInner n : Nat) (input : List Int) : Ref :=
-  let feed := kind == "iterate"
+  let feed := outerFeed kind
   let tr := trace l feed (split n) input
   let sts := states l feed (split n) input
   -- input of round k
   let inputs : List (List Int) := if feed then input :: tr.map (·.2) else tr.map fun _ => input
+  let perRound := (List.range tr.length).zip (sts.zip inputs)
   let outer : List (String × Nat × Nat × Int) :=
-    ((List.range tr.length).zip (sts.zip inputs)).filterMap fun (k, S, inp) =>
-      if readsIn inp then some ("o", k, 0, S) else none
-  let inner : List (String × Nat × Nat × Int) :=
-    if kind != "nested" then [] else
-      ((List.range tr.length).zip sts).flatMap fun (ko, So) =>
+    perRound.filterMap fun (k, S, inp) => if readsIn inp then some ("o", k, 0, S) else none
+  -- inner rounds: (ko, ki, Si, input of the inner round, So)
+  let innerRounds : List (Nat × Nat × Int × List Int × Int) :=
+    if !isNest kind then [] else
+      perRound.flatMap fun (ko, So, inp) =>
         let il := innerLoop maxInner So
-        let itr := trace il false (split n) input
-        let ists := states il false (split n) input
-        if readsIn input then ((List.range itr.length).zip ists).map fun (ki, Si) => ("i", ko, ki, Si) else []
+        let itr := trace il (innerFeed kind) (split n) inp
+        let ists := states il (innerFeed kind) (split n) inp
+        let iinputs : List (List Int) := if innerFeed kind then inp :: itr.map (·.2) else itr.map fun _ => inp
+        ((List.range itr.length).zip (ists.zip iinputs)).map fun (ki, Si, iinp) => (ko, ki, Si, iinp, So)
+  let inner := innerRounds.filterMap fun (ko, ki, Si, iinp, _) => if readsIn iinp then some ("i", ko, ki, Si) else none
+  let rds := innerRounds.flatMap fun (ko, ki, Si, iinp, So) => (sortInts iinp).map fun x => (ko, ki, x, So, Si)
   let last := lastD tr (l.init, [])
-  { state := last.1, items := if feed then some (sortInts last.2) else none, obs := outer ++ inner }
+  { state := last.1, items := if feed then some (sortInts last.2) else none, obs := outer ++ inner, rds }
 
 def fmtObs (o : String × Nat × Nat × Int) : String :=
   if o.1 == "o" then s!"obs o {o.2.1} {o.2.2.2}" else s!"obs i {o.2.1}.{o.2.2.1} {o.2.2.2}"
 
-def render (r : Ref) : List String :=
+def fmtRd (r : Nat × Nat × Int × Int × Int) : String :=
+  s!"rd {r.1}.{r.2.1} {r.2.2.1} {r.2.2.2.1} {r.2.2.2.2}"
+
+/-- predicted lines; the placement metadata (`at …`) cannot be predicted and is taken over -/
+def render (r : Ref) (implOut : List String) : List String :=
   [s!"state {ints [r.state]}"] ++ (match r.items with | some xs => [s!"items {ints xs}"] | none => []) ++
-    r.obs.map fmtObs
+    r.obs.map fmtObs ++ r.rds.map fmtRd ++ implOut.filter fun l => l.startsWith "at "
 
 /-- parse an `obs` line: (level, ko, ki, states) -/
 def parseObs (s : String) : Option (String × Nat × Nat × List Int) :=
@@ -114,6 +141,72 @@ def parseObs (s : String) : Option (String × Nat × Nat × List Int) :=
     | _ => none
   | _ => none
 
+/-- `rd <ko>.<ki> <x> <So> <Si>` -/
+def parseRd (s : String) : Option (Nat × Nat × Int × Int × Int) :=
+  match words s with
+  | ["rd", rd, x, so, si] =>
+    match rd.splitOn "." with
+    | [ko, ki] => do pure (← ko.toNat?, ← ki.toNat?, ← x.toInt?, ← so.toInt?, ← si.toInt?)
+    | _ => none
+  | _ => none
+
+/-- `at o <ko> <state> <hosts…>` -/
+def parseAt (s : String) : Option (Nat × Int × List Nat) :=
+  match words s with
+  | "at" :: "o" :: ko :: st :: hs => do pure (← ko.toNat?, ← st.toInt?, ← hs.mapM String.toNat?)
+  | _ => none
+
+/-! ### F9 explanation: the sequential reference with the observed stale reads substituted
+
+The run is re-computed from what the inner body REALLY read: in outer round `ko` every element must
+have read the inner state of the re-computed run and, as outer state, either the re-computed `S_ko` or
+(stale, F9) the re-computed `S_(ko-1)`. Outputs, inner states, outer states, the number of rounds and the
+final result follow from these reads alone; anything else the engine printed that disagrees with the
+re-computation is a plain failure. -/
+
+structure Subst where
+  state : Int
+  items : List Int
+  /-- (outer round, stale state) of the stale reads -/
+  stale : List (Nat × Int)
+  fails : List String
+  /-- number of `rd` records consumed -/
+  used : Nat
+  deriving Inhabited
+
+partial def substRun (kind : String) (l : Loop Int Int Int) (maxInner n : Nat) (input : List Int)
+    (rds : List (Nat × Nat × Int × Int × Int)) : Subst :=
+  let innerRounds := max 1 maxInner
+  let rec outer (ko : Nat) (So : Int) (prev : Option Int) (inp : List Int)
+      (stale : List (Nat × Int)) (fails : List String) (used : Nat) : Subst :=
+    -- the inner loop of this outer round
+    let rec inner (ki : Nat) (Si : Int) (iinp : List Int) (stale : List (Nat × Int)) (fails : List String)
+        (used : Nat) : Int × List Int × List (Nat × Int) × List String × Nat :=
+      let recs := rds.filter fun r => r.1 == ko && r.2.1 == ki
+      let f1 := if sortInts (recs.map (·.2.2.1)) == sortInts iinp then []
+        else [s!"round {ko}.{ki}: the inner body processed {ints (sortInts (recs.map (·.2.2.1)))}, its input is {ints (sortInts iinp)}"]
+      let f2 := recs.filterMap fun r =>
+        if r.2.2.2.2 == Si then none
+        else some s!"round {ko}.{ki}: inner state read {r.2.2.2.2}, expected {Si}"
+      let f3 := recs.filterMap fun r =>
+        if r.2.2.2.1 == So || (prev == some r.2.2.2.1) then none
+        else some s!"round {ko}.{ki}: outer state read {r.2.2.2.1}, expected {So}"
+      let st := recs.filterMap fun r =>
+        if r.2.2.2.1 != So && prev == some r.2.2.2.1 then some (ko, r.2.2.2.1) else none
+      let outs := recs.map fun r => (r.2.2.1 + r.2.2.2.1 + r.2.2.2.2) % M
+      let Si' := Si + outs.foldl (· + ·) 0
+      let fails := fails ++ f1 ++ (f2 ++ f3).take 2
+      if ki + 1 < innerRounds then
+        inner (ki + 1) Si' (if innerFeed kind then outs else iinp) (stale ++ st) fails (used + recs.length)
+      else (Si', outs, stale ++ st, fails, used + recs.length)
+    let (F, _, stale, fails, used) := inner 0 1 inp stale fails used
+    let out := [F % M]
+    let r := l.cond (foldRound l So (split n out))
+    if r.1 && ko + 1 < l.maxIter then
+      outer (ko + 1) r.2 (some So) (if outerFeed kind then out else input) stale fails used
+    else { state := r.2, items := out, stale, fails, used }
+  outer 0 l.init none input [] [] 0
+
 def handle (c : Case) : Verdict :=
   match c.header with
   | [_, _, kind, hosts, cores, mx, body, fold, cond, init, delay, maxInner] =>
@@ -123,11 +216,11 @@ def handle (c : Case) : Verdict :=
       let input := c.ops.filterMap fun w => match w with | ["i", x] => x.toInt? | _ => none
       let l := mkLoop kind body fold condf init mx maxInner n
       let r := reference kind l maxInner n input
-      let out := render r
+      let out := render r c.implOut
       -- oracle: the property, evaluated on the implementation's lines
       let expState (lvl : String) (ko ki : Nat) : Option Int :=
         (r.obs.find? fun o => o.1 == lvl && o.2.1 == ko && o.2.2.1 == ki).map (·.2.2.2)
-      let sts := states l (kind == "iterate") (split n) input
+      let sts := states l (outerFeed kind) (split n) input
       let fails : List String := c.implOut.flatMap fun line =>
         match words line with
         | ["blocked"] => ["[C10] the job did not finish within 20 s (blocked)"]
@@ -135,6 +228,11 @@ def handle (c : Case) : Verdict :=
           if v == ints [r.state] then [] else [s!"[C10] final state {v}, sequential semantics gives {ints [r.state]}"]
         | ["items", v] =>
           if some v == r.items.map ints then [] else [s!"[C10] items of the last round {v}, sequential semantics gives {r.items.map ints}"]
+        | "at" :: _ => []
+        | "rd" :: _ =>
+          match parseRd line with
+          | none => [s!"[C10] unparsable line {line}"]
+          | some rd => if r.rds.contains rd then [] else [s!"[C10] read `{line}` is not a read of the sequential semantics"]
         | "obs" :: _ =>
           match parseObs line with
           | none => [s!"[C10] unparsable line {line}"]
@@ -151,37 +249,48 @@ def handle (c : Case) : Verdict :=
                 if s == w then none
                 else some s!"[C10] level {lvl} round {ko}.{ki}: a replica observed state {s}, expected {w}"
         | _ => [s!"[C10] unexpected line {line}"]
+      let implRds := c.implOut.filterMap parseRd
+      let fails := if isNest kind && implRds.length < r.rds.length && c.implOut != ["blocked"]
+        then fails ++ [s!"[C10] {r.rds.length - implRds.length} reads of the sequential semantics did not happen"] else fails
       let fails := if (c.implOut.filter fun l => l.startsWith "state").isEmpty && c.implOut != ["blocked"]
         then fails ++ ["[C10] no final state line"] else fails
-      -- F9 explanation predicate (nested loops, >= 2 hosts, shuffle inside the INNER body): the first
-      -- outer round whose observations deviate from the reference is a round k >= 1 in which every
-      -- deviating observation of the OUTER state is exactly the previous round's state S_(k-1) (stale
-      -- read), everything before it agrees with the reference; all later deviations are consequences.
-      let implObs := c.implOut.filterMap parseObs
-      let okAt (lvl : String) (ko ki : Nat) (seen : List Int) : Bool :=
-        match expState lvl ko ki with
-        | some w => seen.all (· == w)
-        | none => false
-      let badOuter := (implObs.filter fun o => o.1 == "o" && !okAt "o" o.2.1 0 o.2.2.2).map (·.2.1)
-      let firstBad := badOuter.foldl min (badOuter.headD 0)
-      let f9 : Bool :=
-        kind == "nested" && hosts ≥ 2 && (body == "n1" || body == "n3") && !badOuter.isEmpty && firstBad ≥ 1 &&
-        (implObs.all fun o => o.2.1 ≥ firstBad || okAt o.1 o.2.1 o.2.2.1 o.2.2.2) &&
-        (implObs.all fun o => !(o.1 == "o" && o.2.1 == firstBad) ||
-          o.2.2.2.all fun s => some s == sts[firstBad]? || some s == sts[firstBad - 1]?) &&
-        c.implOut != ["blocked"]
-      let fails := if f9 then
-          [s!"[C10] known:F9-nested-outer-state-stale outer round {firstBad}: a replica of the inner body observed the OUTER state S_{firstBad - 1} = {(sts[firstBad - 1]?).getD 0} instead of S_{firstBad} = {(sts[firstBad]?).getD 0}; consequences: {fails.length} deviating lines"]
-        else fails
+      -- F9 (nested loops, >= 2 hosts, shuffle inside the INNER body): accepted as the known finding only if the
+      -- whole output is explained by the reads the inner body really made, all deviating reads being reads
+      -- of the previous outer round's state S_(k-1) on a host other than the outer leader's
+      let f9 : Option String :=
+        if fails.isEmpty || !isNest kind || hosts < 2 || !(body == "n1" || body == "n3") then none else
+        let sub := substRun kind l maxInner n input implRds
+        let ats := c.implOut.filterMap parseAt
+        let leaderHost : Nat := ((c.implOut.filterMap fun l => match words l with
+          | ["at", "leader", h] => h.toNat? | _ => none).head?).getD 0
+        let staleHostsOk := sub.stale.all fun (ko, s) =>
+          match ats.find? fun a => a.1 == ko && a.2.1 == s with
+          | some a => !a.2.2.contains leaderHost
+          | none => false
+        -- the printed summary lines must be those of the re-computed run
+        let implObs := c.implOut.filterMap parseObs
+        let obsOk := implObs.all fun (lvl, ko, ki, seen) =>
+          let fromRd := implRds.filter fun rd => rd.1 == ko && (lvl == "o" || rd.2.1 == ki)
+          let vals := fromRd.map fun rd => if lvl == "o" then rd.2.2.2.1 else rd.2.2.2.2
+          seen.all (vals.contains ·) && vals.all (seen.contains ·)
+        let stateOk := c.implOut.contains s!"state {ints [sub.state]}"
+        let itemsOk := !outerFeed kind || c.implOut.contains s!"items {ints (sortInts sub.items)}"
+        if !sub.stale.isEmpty && sub.fails.isEmpty && sub.used == implRds.length && staleHostsOk && obsOk && stateOk && itemsOk then
+          let (ko, s) := sub.stale.headD (0, 0)
+          some s!"[C10] known:F9-nested-outer-state-stale {sub.stale.length} elements of the inner body read the OUTER state of the previous outer round (first: outer round {ko}, state {s}) on a host other than the leader's; inner states, rounds and the final state {sub.state} are exactly what these reads give"
+        else none
+      let (fails, nodiff) := match f9 with
+        | some m => ([m], true)
+        | none => (fails, false)
       let oracle : Option String :=
         if fails.isEmpty then none else some (" ;; ".intercalate (fails.take 4))
-      let rounds := (trace l (kind == "iterate") (split n) input).length
+      let rounds := (trace l (outerFeed kind) (split n) input).length
       -- a trace explained by F9 is a behaviour of the (nondeterministic) nested protocol model, see
-      -- Props/C10.lean `nested_outer_state_stale_counterexample`: no model/implementation diff is reported for it
-      { out := if f9 then c.implOut else out, oracle, nontrivial := rounds ≥ 2 && !input.isEmpty,
+      -- Props/C10.lean `nested_outer_state_stale_counterexample`: it is echoed (tag `nodiff`)
+      { out := if nodiff then c.implOut else out, oracle, nontrivial := rounds ≥ 2 && !input.isEmpty,
         tags := [kind, s!"hosts{hosts}", s!"cores{cores}", s!"body:{body}", s!"fold:{fold}",
                  s!"cond:{(cond.splitOn ":").headD "?"}", s!"delay:{delay}", s!"rounds{min rounds 6}",
-                 if rounds < max 1 mx then "stopsEarly" else "reachesBound"] }
+                 if rounds < max 1 mx then "stopsEarly" else "reachesBound"] ++ (if nodiff then ["nodiff"] else []) }
     | _, _, _, _, _, _ => { out := [], oracle := some "bad header", nontrivial := false }
   | _ => { out := [], oracle := some "bad header", nontrivial := false }
 
